@@ -3,7 +3,7 @@ C14 — assembling the refinement: every accepted history of the one-simcall mac
 LTS (`orun_sound`), the initial states correspond (`init_sound`), a stuck world is a deadlock state
 (`stuck_is_deadlock`).  Core only.
 -/
-import SgVerif.C14.Refine
+import SgVerif.C14.RefineBar
 namespace SgVerif.C14
 open SgVerif.McRef
 
@@ -40,6 +40,9 @@ theorem ostep_sound {o o' : OState} {i : Nat} {path : Path} (hR : R o) (hI : Inv
         case mutexAsyncLock m => exact lock_sound hR hI ha herr hp (hok m hpi) h
         case mutexTrylock m => exact trylock_sound hR hI ha herr hp h
         case mutexUnlock m => exact unlock_sound hR hI ha herr hp h
+        case semAsyncLock k => exact acquire_sound hR hI ha herr hp h
+        case semUnlock k => exact release_sound hR hI ha herr hp h
+        case barAsyncLock b => exact barrier_sound hR hI ha herr hp h
 
 theorem execPath_append {s s' : State} : ∀ {p1 : Path} (p2 : Path), execPath s p1 = some s' →
     execPath s (p1 ++ p2) = execPath s' p2 := by
